@@ -5,7 +5,7 @@ from props.c12 import PoolRun
 from worlds.reqpath import base_plan, RETHROW
 
 ID = 'C13'
-TIERS = {'quick': {'runs': 3000, 'budget_s': 55, 'wall_cap': 120, 'block': 50},
+TIERS = {'quick': {'runs': 9000, 'budget_s': 55, 'wall_cap': 120, 'block': 50},
          'thorough': {'runs': 300000, 'budget_s': 840, 'wall_cap': 120, 'block': 50}}
 SHRINK_LISTS = ['requests', 'faults']
 COVERAGE_RULE = ('one run = real HostConnection pool over 1-2 fake nodes with orphaned_threshold 1-4 and max_in_flight 8-32: '
